@@ -286,3 +286,13 @@ func (p *Program) VTA() *callgraph.Graph {
 	})
 	return p.vtaG
 }
+
+// IsExportedKey reports whether a function key (pkg.Name or pkg.(Recv).Name) names an exported function.
+func IsExportedKey(k string) bool {
+	i := strings.LastIndex(k, ".")
+	if i < 0 || i+1 >= len(k) {
+		return false
+	}
+	c := k[i+1]
+	return c >= 'A' && c <= 'Z'
+}
